@@ -166,7 +166,7 @@ Theorem real_accept mn mx v :
   (real_validate mn mx v = Ok v <-> num_in_bounds mn mx v).
 Proof. exact (real_accept_full_if_fixed mn mx v real_flag_false). Qed.
 
-(* NaN is never within bounds, whatever the translated comparison code does with it *)
+(* NaN is never within bounds, and (repaired in /repo commit 5df2d83: `not val >= min`) it is refused as soon as a bound is declared *)
 Lemma nan_not_in_bounds mn mx : (mn <> None \/ mx <> None) -> ~ num_in_bounds mn mx NNan.
 Proof.
   unfold num_in_bounds, num_ge_opt, num_le_opt, num_le. intros [H|H] [A B].
@@ -175,14 +175,28 @@ Proof.
 Qed.
 
 Definition real_nan_accepted : bool := accepts_real (Some (NFin 1 1)) (Some (NFin 2 1)) NNan.
+Lemma real_nan_flag_false : real_nan_accepted = false.
+Proof. vm_compute. reflexivity. Qed.
 
-Theorem real_nan_refuted :
-  real_nan_accepted = true ->
-  exists mn mx, not_nan_opt mn /\ not_nan_opt mx /\ accepts_real mn mx NNan = true /\ ~ num_in_bounds mn mx NNan.
+(* the full statement for float attributes, NaN included: accepted iff within the declared bounds (NaN: iff no bound is declared) *)
+Theorem real_accept_nan mn mx : not_nan_opt mn -> not_nan_opt mx ->
+  (real_validate mn mx NNan = Ok NNan <-> num_in_bounds mn mx NNan).
 Proof.
-  intros H. exists (Some (NFin 1 1)), (Some (NFin 2 1)).
-  split; [exact I|]. split; [exact I|]. split; [exact H|].
-  apply nan_not_in_bounds. left. discriminate.
+  intros Hmn Hmx. unfold real_validate.
+  destruct mn as [[|mneg|m md]|]; try contradiction; destruct mx as [[|xneg|x xd]|]; try contradiction;
+    unfold num_in_bounds, num_ge_opt, num_le_opt, num_le, num_ltb, num_leb in *;
+    repeat match goal with b : bool |- _ => destruct b end;
+    repeat break_if; try discriminate;
+    split; intros H; try discriminate H; try reflexivity; try tauto; try (destruct H; tauto).
+Qed.
+
+Theorem real_accept_all mn mx v : not_nan_opt mn -> not_nan_opt mx ->
+  (real_validate mn mx v = Ok v <-> num_in_bounds mn mx v).
+Proof.
+  intros Hmn Hmx. destruct v as [|vn|vn vd].
+  - apply real_accept_nan; assumption.
+  - apply real_accept; [discriminate | assumption | assumption].
+  - apply real_accept; [discriminate | assumption | assumption].
 Qed.
 
 (* DecimalConverter.validate: no defect; the full statement *)
@@ -245,11 +259,16 @@ Proof.
   - contradiction.
 Qed.
 
-Theorem str_zero_max_len_refuted :
-  str_zero_max_len_ignored = true ->
-  exists a ml s, accepts_str a ml s = true /\ ~ le_opt ml (zlen (str_norm a s)).
+(* repaired in /repo commit d8f353a (`if max_len is not None and ...`): the flag computes to false *)
+Lemma str_flag_false : str_zero_max_len_ignored = false.
+Proof. vm_compute. reflexivity. Qed.
+
+Theorem str_accept a ml s : str_validate a ml s = Ok (str_norm a s) <-> le_opt ml (zlen (str_norm a s)).
+Proof. exact (str_accept_full_if_fixed a ml s str_flag_false). Qed.
+
+Theorem str_reject a ml s : ~ le_opt ml (zlen (str_norm a s)) -> str_validate a ml s = Err ValueError.
 Proof.
-  intros H. exists false, (Some 0), [97]. split; [exact H|]. cbn. lia.
+  intros Hn. destruct (str_validate_cases a ml s) as [[E H]|[E H]]; [intros T; pose proof str_flag_false; congruence | contradiction | exact E].
 Qed.
 
 (* the accepted value is the input or its strip(); nothing else is ever stored *)
@@ -425,9 +444,9 @@ Proof. intros H. rewrite assign_validates. apply (int_accept _ _ _ _ H). Qed.
 
 (* ------------------------------------------------------------------------------------------------ declared type *)
 (* type_dispatch is the table interpreted from the converters' validate methods on every run (one representative per Python type) *)
-Theorem type_accept_sound c t r : c <> CBool ->
+Theorem type_accept_sound c t r :
   type_dispatch c t = TyAccept r -> tag_in t (type_allowed c) = true /\ r = type_result c t.
-Proof. intros Hc. destruct c; try congruence; destruct t; vm_compute; intros H; first [discriminate H | injection H as <-; split; reflexivity]. Qed.
+Proof. destruct c; destruct t; vm_compute; intros H; first [discriminate H | injection H as <-; split; reflexivity]. Qed.
 
 Theorem type_core_accepted c t : tag_in t (type_core c) = true -> type_dispatch c t = TyAccept (type_result c t).
 Proof. destruct c, t; vm_compute; intros H; first [discriminate H | reflexivity]. Qed.
@@ -435,19 +454,9 @@ Proof. destruct c, t; vm_compute; intros H; first [discriminate H | reflexivity]
 Theorem type_reject_class c t cls : type_dispatch c t = TyReject cls -> cls = TypeError \/ cls = ValueError.
 Proof. destruct c, t; vm_compute; intros H; first [discriminate H | injection H as <-; auto]. Qed.
 
-(* bool: sound only if the translated validate refuses non-bool values (flag computed from the table) *)
-Theorem type_accept_sound_bool_if_fixed t r : bool_accepts_any_type = false ->
-  type_dispatch CBool t = TyAccept r -> tag_in t (type_allowed CBool) = true /\ r = TgBool.
-Proof.
-  intros F. first [ (vm_compute in F; discriminate F)
-                  | (destruct t; vm_compute; intros H; first [discriminate H | injection H as <-; split; reflexivity]) ].
-Qed.
-
-Theorem bool_any_type_refuted : bool_accepts_any_type = true ->
-  exists t r, tag_in t (type_allowed CBool) = false /\ type_dispatch CBool t = TyAccept r.
-Proof.
-  intros F. first [ (vm_compute in F; discriminate F) | (exists TgStrText; unfold bool_accepts_any_type in F; destruct (type_dispatch CBool TgStrText) as [r|c] eqn:E; [exists r; split; [reflexivity | reflexivity] | discriminate F]) ].
-Qed.
+(* bool attributes take only bool and int (repaired in /repo commit 2d5f552) *)
+Lemma bool_flag_false : bool_accepts_any_type = false.
+Proof. vm_compute. reflexivity. Qed.
 
 (* ------------------------------------------------------------------------------------------------ Decimal(precision, scale) *)
 Theorem dec_init_ok_iff p s : (exists r, dec_init p s = Ok r) <-> 0 < p /\ 0 < s /\ s <= p.
